@@ -537,7 +537,10 @@ where
         let mut wrapped = all_steps.peekable();
         // Manually check the first point to make sure we're not calling
         // zip on an empty iterator.
-        assert_eq!(brute_force_steps.peek(), wrapped.peek());
+        // (if there is no step at all, the unbounded brute-force enumeration would never return)
+        if wrapped.peek().is_some() {
+            assert_eq!(brute_force_steps.peek(), wrapped.peek());
+        }
         wrapped.zip(brute_force_steps).map(|(a, bf)| {
             assert_eq!(a, bf);
             a
